@@ -856,14 +856,16 @@ def cnf_projection_scripts() -> list[tuple[str, list[tuple]]]:
                 projections(steps, "M1", vs)
                 steps += [("y_" + v, "exclude", "M2", [v]) for v in sorted(set(vs))] + [("p2", "only", "M2", sorted({_atom_var(V[a]), _atom_var(V[x])}))]
                 out.append((f"F2 factored union {a},{c},{d} with {x}", steps))
-    for common in ("pv3", "im"):
+    V["pv8"] = 'python_version >= "3.8"'
+    for common in (("pv3",), ("im",), ("pv8", "ps", "im"), ("ps", "im", "ex")):      # three common conjuncts: the conjunctive form wins
         for (e, f) in (("r1", "r2"), ("ex", "ey"), ("pv1", "pv2")):
-            if common == "pv3" and e == "pv1":
+            if (e == "pv1" and any(c.startswith("pv") for c in common)) or (e == "ex" and "ex" in common):
                 continue
-            big = f"{V[common]} and ({V['os']} or {V['sp']} or {V['pm1']} or {V[e]}) and ({V['os']} or {V['sp']} or {V['pm2']} or {V[f]})"
-            steps = [("m", "parse", big), ("n", "parse", f"{V[common]} and {V['os']}"), ("u", "or", "m", "n"), ("ut", "reparse", "u")]
-            projections(steps, "u", [_atom_var(V[k]) for k in (common, "os", "sp", "pm1", e)])
-            out.append((f"F3 shared members {common},{e},{f}", steps))
+            cm = " and ".join(V[c] for c in common)
+            big = f"{cm} and ({V['os']} or {V['sp']} or {V['pm1']} or {V[e]}) and ({V['os']} or {V['sp']} or {V['pm2']} or {V[f]})"
+            steps = [("m", "parse", big), ("n", "parse", f"{cm} and {V['os']}"), ("u", "or", "m", "n"), ("ut", "reparse", "u")]
+            projections(steps, "u", [_atom_var(V[k]) for k in (*common, "os", "sp", "pm1", e)])
+            out.append((f"F3 shared members {','.join(common)},{e},{f}", steps))
     return out
 
 
